@@ -9,6 +9,7 @@ import (
 	"path/filepath"
 	"sort"
 	"strings"
+	"time"
 	"unicode/utf8"
 
 	"verifh/lib"
@@ -197,6 +198,10 @@ func (w *work) one(cat string, src []byte) {
 	c.Cur(cat, src)
 	c.Eval()
 	c.Observe("inputs:"+strings.SplitN(cat, ":", 2)[0], 1)
+	if os.Getenv("C17_TIMING") != "" {
+		t0 := time.Now()
+		defer func() { c.Observe("timing_us:"+strings.SplitN(cat, ":", 2)[0], time.Since(t0).Microseconds()) }()
+	}
 	nontrivial := false
 	for e := 0; e < nEntries; e++ {
 		k := runEntry(e, src)
@@ -406,13 +411,13 @@ func run(c *lib.Ctx) {
 		case x < 42: // generated, unmodified
 			p, mode := w.g.program()
 			w.one("generated:"+mode, []byte(p))
-		case x < 45: // repetition of a seed up to the size bound (parse time vs size)
+		case x < 43: // repetition of a seed up to the size bound (parse time vs size)
 			s := pickSeed()
 			if len(s) == 0 {
 				s = []byte("a = 1\n")
 			}
 			k := 1 + r.Intn(40)
-			if r.Intn(10) == 0 {
+			if r.Intn(12) == 0 {
 				k = maxInput / len(s)
 			}
 			var b []byte
